@@ -562,7 +562,7 @@ theorem setPathH_cells {H : Hash} {e : Bool} {h h' : Heap} {a a' v : Nat} {p : L
 
 /-! ### sharing (C19) -/
 
-theorem SharesOffPath.mono {h h1 h' : Heap} (hm : ∀ (b : Nat) (c : Cell), h1.cells[b]? = some c → h'.cells[b]? = some c)
+theorem sharesOffPath_mono {h h1 h' : Heap} (hm : ∀ (b : Nat) (c : Cell), h1.cells[b]? = some c → h'.cells[b]? = some c)
     {a a1 : Nat} {p : List Bool} (hs : SharesOffPath h a h1 a1 p) : SharesOffPath h a h' a1 p := by
   induction p generalizing a a1 with
   | nil => trivial
@@ -581,11 +581,750 @@ theorem setPathH_shares {H : Hash} {h h' : Heap} {a a' v : Nat} {p : List Bool}
   | nil => trivial
   | cons b bs ih =>
     rcases setPathH_cons_inv hs with ⟨l, r, k, h1, x, hc, hsub, rfl, rfl⟩ | ⟨c, _, he, _, _⟩
-    · have hrec := (ih hsub).mono (h' := (alloc h1 (if b = true then Cell.pair l x none
-          else Cell.pair x r none)).1) (fun _ _ hb => (alloc_prefix _ _).get hb)
+    · have hrec := sharesOffPath_mono (h' := (alloc h1 (if b = true then Cell.pair l x none
+          else Cell.pair x r none)).1) (fun _ _ hb => (alloc_prefix _ _).get hb) (ih hsub)
       cases b
-      · exact ⟨l, r, k, x, r, none, hc, by simp, rfl, hrec⟩
-      · exact ⟨l, r, k, l, x, none, hc, by simp, rfl, hrec⟩
+      · exact ⟨l, r, k, x, r, none, hc, alloc_get_new _ _, rfl, hrec⟩
+      · exact ⟨l, r, k, l, x, none, hc, alloc_get_new _ _, rfl, hrec⟩
     · cases he
+
+/-! ### merkleRoot: frame -/
+
+@[simp] theorem fill_size (h : Heap) (a l r : Nat) (c : Chunk) :
+    (fill h a l r c).cells.size = h.cells.size := by simp [fill]
+
+@[simp] theorem fill_calls (h : Heap) (a l r : Nat) (c : Chunk) :
+    (fill h a l r c).hashCalls = h.hashCalls + 1 := rfl
+
+theorem fill_get_ne (h : Heap) {a b : Nat} (l r : Nat) (c : Chunk) (hne : b ≠ a) :
+    (fill h a l r c).cells[b]? = h.cells[b]? := by
+  simp [fill, Array.getElem?_setIfInBounds_ne (Ne.symm hne)]
+
+theorem fill_get_self {h : Heap} {a : Nat} (l r : Nat) (c : Chunk) (ha : a < h.cells.size) :
+    (fill h a l r c).cells[a]? = some (Cell.pair l r (some c)) := by
+  simp [fill, ha]
+
+theorem fill_grow {h : Heap} {a l r : Nat} (c : Chunk)
+    (hc : h.cells[a]? = some (Cell.pair l r none)) : Grow h (fill h a l r c) := by
+  refine ⟨by simp, fun b hb => ?_⟩
+  by_cases hba : b = a
+  · subst hba; exact .inr ⟨l, r, c, hc, fill_get_self l r c hb⟩
+  · exact .inl (fill_get_ne h l r c hba)
+
+/-- `merkleRoot` allocates nothing, only fills `none` caches, and only at addresses `≤ a` -/
+theorem merkleRoot_grow_aux (H : Hash) (h : Heap) (a : Nat) :
+    Grow h (merkleRoot H h a).1 ∧ (merkleRoot H h a).1.cells.size = h.cells.size ∧
+      ∀ b, a < b → (merkleRoot H h a).1.cells[b]? = h.cells[b]? := by
+  refine merkleRoot_induct H
+    (fun h a res => Grow h res.1 ∧ res.1.cells.size = h.cells.size ∧
+      ∀ b, a < b → res.1.cells[b]? = h.cells[b]?) ?_ ?_ ?_ ?_ ?_ h a
+  · intro h a c _; exact ⟨Grow.refl h, rfl, fun _ _ => rfl⟩
+  · intro h a l r c _; exact ⟨Grow.refl h, rfl, fun _ _ => rfl⟩
+  · intro h a _; exact ⟨Grow.refl h, rfl, fun _ _ => rfl⟩
+  · intro h a l r _ _; exact ⟨Grow.refl h, rfl, fun _ _ => rfl⟩
+  · intro h a l r hc hl hr ⟨g1, s1, a1⟩ ⟨g2, s2, a2⟩
+    have hc2 : (merkleRoot H (merkleRoot H h l).1 r).1.cells[a]? = some (Cell.pair l r none) := by
+      rw [a2 a hr, a1 a hl, hc]
+    refine ⟨(g1.trans g2).trans (fill_grow _ hc2), by simp [s1, s2], fun b hb => ?_⟩
+    show (fill _ a l r _).cells[b]? = _
+    rw [fill_get_ne _ l r _ (by omega), a2 b (by omega), a1 b (by omega)]
+
+theorem merkleRoot_grow (H : Hash) (h : Heap) (a : Nat) : Grow h (merkleRoot H h a).1 :=
+  (merkleRoot_grow_aux H h a).1
+
+theorem merkleRoot_size (H : Hash) (h : Heap) (a : Nat) :
+    (merkleRoot H h a).1.cells.size = h.cells.size := (merkleRoot_grow_aux H h a).2.1
+
+theorem merkleRoot_above (H : Hash) (h : Heap) {a b : Nat} (hb : a < b) :
+    (merkleRoot H h a).1.cells[b]? = h.cells[b]? := (merkleRoot_grow_aux H h a).2.2 b hb
+
+/-- the ONLY write to an existing cell: a `none` cache becomes `some` (same children) -/
+theorem merkleRoot_cells (H : Hash) (h : Heap) (a b : Nat) (hb : b < h.cells.size) :
+    (merkleRoot H h a).1.cells[b]? = h.cells[b]? ∨
+      ∃ l r c, h.cells[b]? = some (Cell.pair l r none) ∧
+        (merkleRoot H h a).1.cells[b]? = some (Cell.pair l r (some c)) :=
+  (merkleRoot_grow H h a).cell b hb
+
+/-- 2. PERSISTENCE for `merkleRoot` -/
+theorem merkleRoot_frame (H : Hash) (h : Heap) (a b : Nat) (hb : b < h.cells.size) :
+    denote (merkleRoot H h a).1 b = denote h b := denote_grow (merkleRoot_grow H h a) b hb
+
+/-! ### merkleRoot: value and well-formedness -/
+
+theorem Grow.shape {h h' : Heap} (g : Grow h h') (hsz : h'.cells.size = h.cells.size)
+    (hs : Shape h) : Shape h' := by
+  intro b l r k hb
+  have hlt : b < h.cells.size := hsz ▸ lt_size_of_get hb
+  rcases g.cell b hlt with e | ⟨l', r', c, e, e'⟩
+  · exact hs b l r k (e ▸ hb)
+  · rw [e'] at hb; cases hb; exact hs b l r none e
+
+theorem fill_WF {H : Hash} {h : Heap} {a l r : Nat} {c : Chunk} (hw : WF H h)
+    (hc : h.cells[a]? = some (Cell.pair l r none)) (hl : l < a) (hr : r < a)
+    (hv : c = (denote h a).root H) : WF H (fill h a l r c) := by
+  have ha := lt_size_of_get hc
+  have g := fill_grow c hc
+  refine ⟨g.shape (by simp) hw.1, ?_⟩
+  intro b l' r' k hb
+  rw [denote_grow g b (by simpa using lt_size_of_get hb)]
+  by_cases hba : b = a
+  · subst hba
+    rw [fill_get_self l r c ha] at hb
+    cases hb; exact hv
+  · rw [fill_get_ne h l r c hba] at hb
+    exact hw.2 b l' r' k hb
+
+/-- 4. `merkleRoot` returns the root of the denoted tree and keeps the heap well-formed -/
+theorem merkleRoot_spec (H : Hash) (h : Heap) (a : Nat) (hw : WF H h) :
+    WF H (merkleRoot H h a).1 ∧ (merkleRoot H h a).2 = (denote h a).root H := by
+  refine merkleRoot_induct H
+    (fun h a res => WF H h → WF H res.1 ∧ res.2 = (denote h a).root H) ?_ ?_ ?_ ?_ ?_ h a hw
+  · intro h a c hc hw; exact ⟨hw, by rw [denote_leaf hc]; rfl⟩
+  · intro h a l r c hc hw; exact ⟨hw, hw.2 a l r c hc⟩
+  · intro h a hc hw; exact ⟨hw, by rw [denote_none hc]; rfl⟩
+  · intro h a l r hc hb hw; exact ⟨hw, by rw [denote_bad hc hb]; rfl⟩
+  · intro h a l r hc hl hr ih1 ih2 hw
+    obtain ⟨hw1, v1⟩ := ih1 hw
+    obtain ⟨hw2, v2⟩ := ih2 hw1
+    have ha := lt_size_of_get hc
+    have g1 := merkleRoot_grow H h l
+    have g2 := merkleRoot_grow H (merkleRoot H h l).1 r
+    have s1 := merkleRoot_size H h l
+    have hc2 : (merkleRoot H (merkleRoot H h l).1 r).1.cells[a]? = some (Cell.pair l r none) := by
+      rw [merkleRoot_above H _ hr, merkleRoot_above H _ hl, hc]
+    have hval : H (merkleRoot H h l).2 (merkleRoot H (merkleRoot H h l).1 r).2
+        = (denote h a).root H := by
+      rw [v1, v2, denote_grow g1 r (by omega), denote_pair hc hl hr]; rfl
+    refine ⟨fill_WF hw2 hc2 hl hr ?_, hval⟩
+    rw [denote_grow (g1.trans g2) a ha]; exact hval
+
+theorem merkleRoot_value {H : Hash} {h : Heap} (hw : WF H h) (a : Nat) :
+    (merkleRoot H h a).2 = (denote h a).root H := (merkleRoot_spec H h a hw).2
+
+theorem merkleRoot_WF {H : Hash} {h : Heap} (hw : WF H h) (a : Nat) :
+    WF H (merkleRoot H h a).1 := (merkleRoot_spec H h a hw).1
+
+/-- 4. a second `merkleRoot` on the result heap changes nothing (in particular: 0 hash calls, and a
+    copy of a view, sharing the backing address, gets the cached root for free) -/
+theorem merkleRoot_idempotent (H : Hash) (h : Heap) (a : Nat) :
+    merkleRoot H (merkleRoot H h a).1 a = merkleRoot H h a := by
+  rcases hc : h.cells[a]? with _ | (c | ⟨l, r, (_ | c)⟩)
+  · rw [merkleRoot_none H hc]; exact merkleRoot_none H hc
+  · rw [merkleRoot_leaf H hc]; exact merkleRoot_leaf H hc
+  · by_cases hlt : l < a ∧ r < a
+    · rw [merkleRoot_pair H hc hlt.1 hlt.2]
+      apply merkleRoot_cached H (l := l) (r := r)
+      apply fill_get_self
+      rw [merkleRoot_size, merkleRoot_size]; exact lt_size_of_get hc
+    · rw [merkleRoot_bad H hc hlt]; exact merkleRoot_bad H hc hlt
+  · rw [merkleRoot_cached H hc]; exact merkleRoot_cached H hc
+
+theorem merkleRoot_idempotent_cost (H : Hash) (h : Heap) (a : Nat) :
+    (merkleRoot H (merkleRoot H h a).1 a).1.hashCalls = (merkleRoot H h a).1.hashCalls := by
+  rw [merkleRoot_idempotent]
+
+/-! ### hashed subtrees; the cache-closure invariant -/
+
+theorem hashed_lt_size {h : Heap} {a : Nat} (hh : Hashed h a) : a < h.cells.size := by
+  cases hh with
+  | leaf _ c hc => exact lt_size_of_get hc
+  | pair _ l r c hc _ _ => exact lt_size_of_get hc
+
+theorem hashed_grow {h h' : Heap} (g : Grow h h') {a : Nat} (hh : Hashed h a) : Hashed h' a := by
+  induction hh with
+  | leaf a c hc => exact .leaf a c (g.get_leaf hc)
+  | pair a l r c hc _ _ ihl ihr => exact .pair a l r c (g.get_cached hc) ihl ihr
+
+theorem hashed_children {h : Heap} {a l r : Nat} {k : Option Chunk} (hh : Hashed h a)
+    (hc : h.cells[a]? = some (Cell.pair l r k)) : Hashed h l ∧ Hashed h r := by
+  cases hh with
+  | leaf _ c hc' => rw [hc] at hc'; cases hc'
+  | pair _ l' r' c hc' hl hr => rw [hc] at hc'; cases hc'; exact ⟨hl, hr⟩
+
+theorem alloc_closed {h : Heap} {c : Cell} (hcl : Closed h) (ok : OkAt h.cells.size c) :
+    Closed (alloc h c).1 := by
+  intro a l r k hget
+  rw [alloc_get] at hget
+  split at hget
+  · cases hget
+    obtain ⟨_, _, h3⟩ := ok
+    cases h3
+  · exact hashed_grow (alloc_prefix h c).grow (hcl a l r k hget)
+
+theorem fill_closed {h : Heap} {a l r : Nat} {c : Chunk} (hcl : Closed h)
+    (hc : h.cells[a]? = some (Cell.pair l r none)) (hl : Hashed h l) (hr : Hashed h r) :
+    Closed (fill h a l r c) ∧ Hashed (fill h a l r c) a := by
+  have g := fill_grow c hc
+  have ha : Hashed (fill h a l r c) a :=
+    .pair a l r c (fill_get_self l r c (lt_size_of_get hc)) (hashed_grow g hl) (hashed_grow g hr)
+  refine ⟨?_, ha⟩
+  intro b l' r' k hb
+  by_cases hba : b = a
+  · subst hba; exact ha
+  · rw [fill_get_ne h l r c hba] at hb
+    exact hashed_grow g (hcl b l' r' k hb)
+
+/-- after `merkleRoot` everything reachable from `a` is hashed (and the closure invariant is kept) -/
+theorem merkleRoot_closed_hashed (H : Hash) (h : Heap) (a : Nat) (hs : Shape h) (hcl : Closed h)
+    (ha : a < h.cells.size) : Closed (merkleRoot H h a).1 ∧ Hashed (merkleRoot H h a).1 a := by
+  refine merkleRoot_induct H
+    (fun h a res => Shape h → Closed h → a < h.cells.size → Closed res.1 ∧ Hashed res.1 a)
+    ?_ ?_ ?_ ?_ ?_ h a hs hcl ha
+  · intro h a c hc _ hcl _; exact ⟨hcl, .leaf a c hc⟩
+  · intro h a l r c hc _ hcl _; exact ⟨hcl, hcl a l r c hc⟩
+  · intro h a hc _ _ ha; rw [Array.getElem?_eq_none_iff] at hc; omega
+  · intro h a l r hc hb hs _ _; exact absurd (hs a l r none hc) hb
+  · intro h a l r hc hl hr ih1 ih2 hs hcl ha
+    have g1 := merkleRoot_grow H h l
+    have g2 := merkleRoot_grow H (merkleRoot H h l).1 r
+    have s1 := merkleRoot_size H h l
+    obtain ⟨c1, h1⟩ := ih1 hs hcl (by omega)
+    obtain ⟨c2, h2⟩ := ih2 (g1.shape s1 hs) c1 (by omega)
+    have hc2 : (merkleRoot H (merkleRoot H h l).1 r).1.cells[a]? = some (Cell.pair l r none) := by
+      rw [merkleRoot_above H _ hr, merkleRoot_above H _ hl, hc]
+    exact fill_closed c2 hc2 (hashed_grow g2 h1) h2
+
+theorem merkleRoot_hashed (H : Hash) {h : Heap} (hs : Shape h) (hcl : Closed h) {a : Nat}
+    (ha : a < h.cells.size) : Hashed (merkleRoot H h a).1 a :=
+  (merkleRoot_closed_hashed H h a hs hcl ha).2
+
+theorem merkleRoot_closed (H : Hash) {h : Heap} (hs : Shape h) (hcl : Closed h) {a : Nat}
+    (ha : a < h.cells.size) : Closed (merkleRoot H h a).1 :=
+  (merkleRoot_closed_hashed H h a hs hcl ha).1
+
+theorem merkleRoot_shape (H : Hash) {h : Heap} (hs : Shape h) (a : Nat) :
+    Shape (merkleRoot H h a).1 := (merkleRoot_grow H h a).shape (merkleRoot_size H h a) hs
+
+theorem setPathH_closed {H : Hash} {e : Bool} {h h' : Heap} {a a' v : Nat} {p : List Bool}
+    (hs : Shape h) (hcl : Closed h) (hv : v < h.cells.size)
+    (hsp : setPathH H e h a p v = some (h', a')) : Closed h' := by
+  induction p generalizing a h' a' with
+  | nil => simp at hsp; rw [← hsp.1]; exact hcl
+  | cons b bs ih =>
+    rcases setPathH_cons_inv hsp with ⟨l, r, k, h1, x, hc, hsub, rfl, _⟩ | ⟨c, _, _, _, hx⟩
+    · have hx := setPathH_lt hv hsub
+      have hp := (setPathH_prefix hsub).size
+      have hlt := hs a l r k hc
+      have ha := lt_size_of_get hc
+      apply alloc_closed (ih hsub)
+      cases b <;> simp [OkAt] <;> omega
+    · have : Closed (expandH H h (b :: bs) v).1 := by
+        clear hx
+        induction (b :: bs) with
+        | nil => simpa [expandH] using hcl
+        | cons b' bs' ih' =>
+          have hx' := expandH_lt H h bs' hv
+          rw [expandH_cons]
+          apply alloc_closed (alloc_closed (c := Cell.leaf _) ih' trivial)
+          cases b' <;> simp [OkAt] <;> omega
+      rw [hx] at this; exact this
+
+/-! ### hashing cost (C19) -/
+
+/-- simulation between `merkleRoot` on `h` and the depth-first search on the initial heap `h0`:
+    `h` is `h0` with exactly the caches at the visited addresses `F` filled in addition -/
+structure Sim (h0 : Heap) (F : List Nat) (h : Heap) : Prop where
+  shape : ∀ b : Nat, (h.cells[b]?).map Cell.shape = (h0.cells[b]?).map Cell.shape
+  pend : ∀ b : Nat, (∃ l r, h.cells[b]? = some (Cell.pair l r none)) ↔
+    ((∃ l r, h0.cells[b]? = some (Cell.pair l r none)) ∧ b ∉ F)
+
+theorem Sim.leaf {h0 h : Heap} {F : List Nat} (s : Sim h0 F h) {a : Nat} {c : Chunk}
+    (hc : h.cells[a]? = some (Cell.leaf c)) : h0.cells[a]? = some (Cell.leaf c) := by
+  have := s.shape a
+  rw [hc] at this
+  rcases h0c : h0.cells[a]? with _ | (c' | ⟨l, r, k⟩) <;> rw [h0c] at this <;>
+    simp [Cell.shape] at this
+  rw [this]
+
+theorem Sim.pair {h0 h : Heap} {F : List Nat} (s : Sim h0 F h) {a l r : Nat} {k : Option Chunk}
+    (hc : h.cells[a]? = some (Cell.pair l r k)) : ∃ k0, h0.cells[a]? = some (Cell.pair l r k0) := by
+  have := s.shape a
+  rw [hc] at this
+  rcases h0c : h0.cells[a]? with _ | (c' | ⟨l', r', k'⟩) <;> rw [h0c] at this <;>
+    simp [Cell.shape] at this
+  exact ⟨k', by rw [this.1, this.2]⟩
+
+theorem Sim.dangling {h0 h : Heap} {F : List Nat} (s : Sim h0 F h) {a : Nat}
+    (hc : h.cells[a]? = none) : h0.cells[a]? = none := by
+  have := s.shape a
+  rw [hc] at this
+  simpa using this.symm
+
+theorem Sim.pending {h0 h : Heap} {F : List Nat} (s : Sim h0 F h) {a l r : Nat}
+    (hc : h.cells[a]? = some (Cell.pair l r none)) :
+    h0.cells[a]? = some (Cell.pair l r none) ∧ a ∉ F := by
+  obtain ⟨⟨l', r', h0c⟩, hF⟩ := (s.pend a).1 ⟨l, r, hc⟩
+  obtain ⟨k0, hk⟩ := s.pair hc
+  rw [hk] at h0c; cases h0c
+  exact ⟨hk, hF⟩
+
+theorem merkleRoot_sim (H : Hash) (h0 : Heap) (h : Heap) (a : Nat) :
+    ∀ F, Sim h0 F h → Sim h0 (collect h0 a F) (merkleRoot H h a).1 ∧
+      (merkleRoot H h a).1.hashCalls + F.length = h.hashCalls + (collect h0 a F).length := by
+  refine merkleRoot_induct H
+    (fun h a res => ∀ F, Sim h0 F h → Sim h0 (collect h0 a F) res.1 ∧
+      res.1.hashCalls + F.length = h.hashCalls + (collect h0 a F).length) ?_ ?_ ?_ ?_ ?_ h a
+  · intro h a c hc F s
+    rw [collect_leaf (s.leaf hc)]; exact ⟨s, rfl⟩
+  · intro h a l r c hc F s
+    obtain ⟨k0, h0c⟩ := s.pair hc
+    have e : collect h0 a F = F := by
+      by_cases hm : a ∈ F
+      · exact collect_mem hm
+      · cases k0 with
+        | some c0 => exact collect_cached h0c
+        | none =>
+          obtain ⟨l', r', hp⟩ := (s.pend a).2 ⟨⟨l, r, h0c⟩, hm⟩
+          rw [hc] at hp; cases hp
+    rw [e]; exact ⟨s, rfl⟩
+  · intro h a hc F s
+    rw [collect_none (s.dangling hc)]; exact ⟨s, rfl⟩
+  · intro h a l r hc hb F s
+    rw [collect_bad (s.pending hc).1 hb]; exact ⟨s, rfl⟩
+  · intro h a l r hc hl hr ih1 ih2 F s
+    obtain ⟨h0c, hF⟩ := s.pending hc
+    obtain ⟨s1, n1⟩ := ih1 F s
+    obtain ⟨s2, n2⟩ := ih2 _ s1
+    rw [collect_pair hF h0c hl hr]
+    refine ⟨⟨fun b => ?_, fun b => ?_⟩, by simp only [fill_calls, List.length_cons]; omega⟩
+    · by_cases hba : b = a
+      · subst hba
+        have hsome : b < (merkleRoot H (merkleRoot H h l).1 r).1.cells.size := by
+          rw [merkleRoot_size, merkleRoot_size]; exact lt_size_of_get hc
+        rw [fill_get_self l r _ hsome, h0c]; rfl
+      · show Option.map Cell.shape (fill _ a l r _).cells[b]? = _
+        rw [fill_get_ne _ l r _ hba]; exact s2.shape b
+    · by_cases hba : b = a
+      · subst hba
+        have hsome : b < (merkleRoot H (merkleRoot H h l).1 r).1.cells.size := by
+          rw [merkleRoot_size, merkleRoot_size]; exact lt_size_of_get hc
+        show (∃ l' r', (fill _ b l r _).cells[b]? = _) ↔ _
+        rw [fill_get_self l r _ hsome]
+        simp
+      · show (∃ l' r', (fill _ a l r _).cells[b]? = _) ↔ _
+        rw [fill_get_ne _ l r _ hba, s2.pend b]
+        simp [hba]
+
+/-- 4. HASH COST, exact form: `merkleRoot` calls the pair hash exactly once per DISTINCT uncached
+    pair address reachable from `a` (no hypothesis on the heap at all). -/
+theorem merkleRoot_cost_eq (H : Hash) (h : Heap) (a : Nat) :
+    (merkleRoot H h a).1.hashCalls = h.hashCalls + uncached h a := by
+  have := (merkleRoot_sim H h h a [] ⟨fun _ => rfl, fun _ => by simp⟩).2
+  simpa [uncached, uncachedList] using this
+
+/-- 4. HASH COST (as stated in the task) -/
+theorem merkleRoot_cost (H : Hash) (h : Heap) (a : Nat) :
+    (merkleRoot H h a).1.hashCalls - h.hashCalls ≤ uncached h a := by
+  rw [merkleRoot_cost_eq]; omega
+
+theorem merkleRoot_idempotent_zero (H : Hash) (h : Heap) (a : Nat) :
+    uncached (merkleRoot H h a).1 a = 0 := by
+  have h1 := merkleRoot_cost_eq H (merkleRoot H h a).1 a
+  rw [merkleRoot_idempotent] at h1
+  omega
+
+/-! ### the path bound -/
+
+theorem collect_congr {h h' : Heap} : ∀ (a : Nat) (vis : List Nat),
+    (∀ b, b ≤ a → h'.cells[b]? = h.cells[b]?) → collect h' a vis = collect h a vis := by
+  intro a
+  induction a using Nat.strongRecOn with
+  | ind a ih =>
+    intro vis hag
+    by_cases hm : a ∈ vis
+    · rw [collect_mem hm, collect_mem hm]
+    · have ha := hag a (Nat.le_refl a)
+      rcases hc : h.cells[a]? with _ | (c | ⟨l, r, (_ | c)⟩) <;> rw [hc] at ha
+      · rw [collect_none hc, collect_none ha]
+      · rw [collect_leaf hc, collect_leaf ha]
+      · by_cases hlt : l < a ∧ r < a
+        · rw [collect_pair hm hc hlt.1 hlt.2, collect_pair hm ha hlt.1 hlt.2,
+            ih l hlt.1 vis (fun b hb => hag b (by omega)),
+            ih r hlt.2 _ (fun b hb => hag b (by omega))]
+        · rw [collect_bad hc hlt, collect_bad ha hlt]
+      · rw [collect_cached hc, collect_cached ha]
+
+theorem collect_prefix {h h' : Heap} (p : Prefix h h') {a : Nat} (ha : a < h.cells.size)
+    (vis : List Nat) : collect h' a vis = collect h a vis :=
+  collect_congr a vis (fun b hb => p.cell b (by omega))
+
+theorem collect_hashed {h : Heap} {a : Nat} (hh : Hashed h a) (vis : List Nat) :
+    collect h a vis = vis := by
+  cases hh with
+  | leaf _ c hc => exact collect_leaf hc
+  | pair _ l r c hc _ _ => exact collect_cached hc
+
+theorem length_le_collect (h : Heap) : ∀ (a : Nat) (vis : List Nat),
+    vis.length ≤ (collect h a vis).length := by
+  intro a
+  induction a using Nat.strongRecOn with
+  | ind a ih =>
+    intro vis
+    by_cases hm : a ∈ vis
+    · rw [collect_mem hm]; exact Nat.le_refl _
+    · rcases hc : h.cells[a]? with _ | (c | ⟨l, r, (_ | c)⟩)
+      · rw [collect_none hc]; exact Nat.le_refl _
+      · rw [collect_leaf hc]; exact Nat.le_refl _
+      · by_cases hlt : l < a ∧ r < a
+        · rw [collect_pair hm hc hlt.1 hlt.2]
+          have h1 := ih l hlt.1 vis
+          have h2 := ih r hlt.2 (collect h l vis)
+          simp only [List.length_cons]; omega
+        · rw [collect_bad hc hlt]; exact Nat.le_refl _
+      · rw [collect_cached hc]; exact Nat.le_refl _
+
+/-- after a write below a fully hashed tree only the new path cells (and whatever is uncached
+    below the written node `v`) are uncached -/
+theorem setPathH_collect {H : Hash} {h h' : Heap} {a a' v : Nat} {p : List Bool}
+    (hh : Hashed h a) (hv : v < h.cells.size)
+    (hs : setPathH H false h a p v = some (h', a')) (vis : List Nat) :
+    (collect h' a' vis).length ≤ p.length + (collect h v vis).length := by
+  induction p generalizing a h' a' with
+  | nil => simp at hs; rw [← hs.1, ← hs.2]; simp
+  | cons b bs ih =>
+    rcases setPathH_cons_inv hs with ⟨l, r, k, h1, x, hc, hsub, rfl, rfl⟩ | ⟨c, _, he, _, _⟩
+    · obtain ⟨hhl, hhr⟩ := hashed_children hh hc
+      have hp1 := setPathH_prefix hsub
+      have hx := setPathH_lt hv hsub
+      have hl1 := Nat.lt_of_lt_of_le (hashed_lt_size hhl) hp1.size
+      have hr1 := Nat.lt_of_lt_of_le (hashed_lt_size hhr) hp1.size
+      have hmono := length_le_collect h v vis
+      by_cases hm : h1.cells.size ∈ vis
+      · rw [collect_mem hm]; simp only [List.length_cons]; omega
+      · cases b
+        · have hrec := ih (a := l) hhl hsub
+          have hpa := alloc_prefix h1 (Cell.pair x r none)
+          simp only [Bool.false_eq_true, if_false] at hrec ⊢
+          rw [collect_pair hm (alloc_get_new _ _) hx hr1, collect_prefix hpa hx,
+            collect_hashed (hashed_grow (hp1.trans hpa).grow hhr)]
+          simp only [List.length_cons]; omega
+        · have hrec := ih (a := r) hhr hsub
+          have hpa := alloc_prefix h1 (Cell.pair l x none)
+          simp only [if_true] at hrec ⊢
+          rw [collect_pair hm (alloc_get_new _ _) hl1 hx,
+            collect_hashed (hashed_grow (hp1.trans hpa).grow hhl), collect_prefix hpa hx]
+          simp only [List.length_cons]; omega
+    · cases he
+
+theorem setPathH_uncached {H : Hash} {h h' : Heap} {a a' v : Nat} {p : List Bool}
+    (hh : Hashed h a) (hv : v < h.cells.size)
+    (hs : setPathH H false h a p v = some (h', a')) :
+    uncached h' a' ≤ p.length + uncached h v := setPathH_collect hh hv hs []
+
+/-- 4. PATH BOUND (C19): if everything reachable from `a` is hashed, then after writing `v` at path
+    `p` the new root costs at most one hash per path step plus the hashing of `v` itself. -/
+theorem setPath_then_root_cost {H : Hash} {h h' : Heap} {a a' v : Nat} {p : List Bool}
+    (hh : Hashed h a) (hv : v < h.cells.size)
+    (hs : setPathH H false h a p v = some (h', a')) :
+    (merkleRoot H h' a').1.hashCalls - h.hashCalls ≤ p.length + uncached h v := by
+  have := setPathH_uncached hh hv hs
+  rw [merkleRoot_cost_eq, (setPathH_prefix hs).calls]; omega
+
+/-- the same, starting from any well-shaped heap by hashing `a` first (`e.g. after a merkleRoot`) -/
+theorem root_setPath_root_cost {H : Hash} {h h' : Heap} {a a' v : Nat} {p : List Bool}
+    (hsh : Shape h) (hcl : Closed h) (ha : a < h.cells.size) (hv : v < h.cells.size)
+    (hs : setPathH H false (merkleRoot H h a).1 a p v = some (h', a')) :
+    (merkleRoot H h' a').1.hashCalls - (merkleRoot H h a).1.hashCalls
+      ≤ p.length + uncached (merkleRoot H h a).1 v :=
+  setPath_then_root_cost (merkleRoot_hashed H hsh hcl ha) (by rw [merkleRoot_size]; exact hv) hs
+
+/-! ### ofNode -/
+
+/-- number of objects of a tree -/
+def nodes : Node → Nat
+  | .leaf _ => 1
+  | .pair l r => nodes l + nodes r + 1
+
+theorem ofNode_prefix (h : Heap) (n : Node) : Prefix h (ofNode h n).1 := by
+  induction n generalizing h with
+  | leaf c => exact alloc_prefix h _
+  | pair l r ihl ihr => exact ((ihl h).trans (ihr _)).trans (alloc_prefix _ _)
+
+theorem ofNode_size (h : Heap) (n : Node) :
+    (ofNode h n).1.cells.size = h.cells.size + nodes n := by
+  induction n generalizing h with
+  | leaf c => simp [ofNode, nodes]
+  | pair l r ihl ihr => simp [ofNode, nodes, ihl, ihr]; omega
+
+theorem ofNode_lt (h : Heap) (n : Node) : (ofNode h n).2 < (ofNode h n).1.cells.size := by
+  cases n <;> simp [ofNode]
+
+theorem denote_ofNode (h : Heap) (n : Node) : denote (ofNode h n).1 (ofNode h n).2 = n := by
+  induction n generalizing h with
+  | leaf c => exact denote_alloc_leaf h c
+  | pair l r ihl ihr =>
+    have h1 := ofNode_lt h l
+    have h2 := ofNode_lt (ofNode h l).1 r
+    have hp := ofNode_prefix (ofNode h l).1 r
+    have hsz := hp.size
+    show denote (alloc _ (Cell.pair _ _ none)).1 (ofNode (ofNode h l).1 r).1.cells.size = _
+    rw [denote_alloc_pair _ (by omega) h2, ihr, denote_prefix hp _ h1, ihl]
+
+theorem ofNode_WF {H : Hash} {h : Heap} (hw : WF H h) (n : Node) : WF H (ofNode h n).1 := by
+  induction n generalizing h with
+  | leaf c => exact alloc_WF (c := Cell.leaf c) hw trivial
+  | pair l r ihl ihr =>
+    have h1 := ofNode_lt h l
+    have h2 := ofNode_lt (ofNode h l).1 r
+    have hsz := (ofNode_prefix (ofNode h l).1 r).size
+    exact alloc_WF (ihr (ihl hw)) ⟨by omega, h2, rfl⟩
+
+theorem ofNode_closed {h : Heap} (hcl : Closed h) (n : Node) : Closed (ofNode h n).1 := by
+  induction n generalizing h with
+  | leaf c => exact alloc_closed (c := Cell.leaf c) hcl trivial
+  | pair l r ihl ihr =>
+    have h1 := ofNode_lt h l
+    have h2 := ofNode_lt (ofNode h l).1 r
+    have hsz := (ofNode_prefix (ofNode h l).1 r).size
+    exact alloc_closed (ihr (ihl hcl)) ⟨by omega, h2, rfl⟩
+
+/-- PERSISTENCE for `ofNode` -/
+theorem ofNode_frame (h : Heap) (n : Node) (b : Nat) (hb : b < h.cells.size) :
+    denote (ofNode h n).1 b = denote h b := denote_prefix (ofNode_prefix h n) b hb
+
+theorem empty_WF (H : Hash) : WF H Heap.empty :=
+  ⟨fun a l r c hc => by simp [Heap.empty] at hc, fun a l r c hc => by simp [Heap.empty] at hc⟩
+
+theorem empty_closed : Closed Heap.empty := fun a l r c hc => by simp [Heap.empty] at hc
+
+/-! ### `uncachedList` is the duplicate-free list of the reachable uncached pair addresses -/
+
+/-- `b` is an uncached pair reachable from `a` through uncached pairs only -/
+inductive ReachU (h : Heap) : Nat → Nat → Prop
+  | here (a l r : Nat) : h.cells[a]? = some (Cell.pair l r none) → l < a → r < a → ReachU h a a
+  | left (a l r b : Nat) : h.cells[a]? = some (Cell.pair l r none) → l < a → r < a →
+      ReachU h l b → ReachU h a b
+  | right (a l r b : Nat) : h.cells[a]? = some (Cell.pair l r none) → l < a → r < a →
+      ReachU h r b → ReachU h a b
+
+theorem ReachU.le {h : Heap} {a b : Nat} (hr : ReachU h a b) : b ≤ a := by
+  induction hr with
+  | here => exact Nat.le_refl _
+  | left a l r b _ hl _ _ ih => omega
+  | right a l r b _ _ hr _ ih => omega
+
+theorem ReachU.source {h : Heap} {a b : Nat} (hr : ReachU h a b) :
+    ∃ l r, h.cells[a]? = some (Cell.pair l r none) ∧ l < a ∧ r < a := by
+  cases hr with
+  | here _ l r hc hl hr => exact ⟨l, r, hc, hl, hr⟩
+  | left _ l r _ hc hl hr _ => exact ⟨l, r, hc, hl, hr⟩
+  | right _ l r _ hc hl hr _ => exact ⟨l, r, hc, hl, hr⟩
+
+/-- every reachable address is itself an uncached pair -/
+theorem ReachU.target {h : Heap} {a b : Nat} (hr : ReachU h a b) :
+    ∃ l r, h.cells[b]? = some (Cell.pair l r none) := by
+  induction hr with
+  | here a l r hc _ _ => exact ⟨l, r, hc⟩
+  | left _ _ _ _ _ _ _ _ ih => exact ih
+  | right _ _ _ _ _ _ _ _ ih => exact ih
+
+theorem ReachU.trans {h : Heap} {a b c : Nat} (h1 : ReachU h a b) (h2 : ReachU h b c) :
+    ReachU h a c := by
+  induction h1 with
+  | here => exact h2
+  | left a l r b hc hl hr _ ih => exact .left a l r c hc hl hr (ih h2)
+  | right a l r b hc hl hr _ ih => exact .right a l r c hc hl hr (ih h2)
+
+theorem reachU_iff {h : Heap} {a l r : Nat} (hc : h.cells[a]? = some (Cell.pair l r none))
+    (hl : l < a) (hr : r < a) (b : Nat) :
+    ReachU h a b ↔ b = a ∨ ReachU h l b ∨ ReachU h r b := by
+  constructor
+  · intro hreach
+    cases hreach with
+    | here => exact .inl rfl
+    | left _ l' r' _ hc' _ _ hsub => rw [hc] at hc'; cases hc'; exact .inr (.inl hsub)
+    | right _ l' r' _ hc' _ _ hsub => rw [hc] at hc'; cases hc'; exact .inr (.inr hsub)
+  · rintro (rfl | hsub | hsub)
+    · exact .here _ l r hc hl hr
+    · exact .left a l r b hc hl hr hsub
+    · exact .right a l r b hc hl hr hsub
+
+/-- correctness of the depth-first search -/
+theorem collect_spec (h : Heap) : ∀ (a : Nat) (vis : List Nat), vis.Nodup →
+    (∀ x, x ∈ vis → ∀ b, ReachU h x b → b ∈ vis) →
+    (collect h a vis).Nodup ∧ ∀ b, b ∈ collect h a vis ↔ (b ∈ vis ∨ ReachU h a b) := by
+  intro a
+  induction a using Nat.strongRecOn with
+  | ind a ih =>
+    intro vis hnd hcl
+    have stop : collect h a vis = vis →
+        (∀ b, ReachU h a b → b ∈ vis) →
+        (collect h a vis).Nodup ∧ ∀ b, b ∈ collect h a vis ↔ (b ∈ vis ∨ ReachU h a b) := by
+      intro e hno
+      rw [e]
+      exact ⟨hnd, fun b => ⟨.inl, fun hb => hb.elim id (hno b)⟩⟩
+    by_cases hm : a ∈ vis
+    · exact stop (collect_mem hm) (hcl a hm)
+    · rcases hc : h.cells[a]? with _ | (c | ⟨l, r, (_ | c)⟩)
+      · refine stop (collect_none hc) (fun b hb => ?_)
+        obtain ⟨_, _, hc', _⟩ := hb.source; rw [hc] at hc'; cases hc'
+      · refine stop (collect_leaf hc) (fun b hb => ?_)
+        obtain ⟨_, _, hc', _⟩ := hb.source; rw [hc] at hc'; cases hc'
+      · by_cases hlt : l < a ∧ r < a
+        · obtain ⟨hl, hr⟩ := hlt
+          obtain ⟨nd1, mem1⟩ := ih l hl vis hnd hcl
+          have cl1 : ∀ x, x ∈ collect h l vis → ∀ b, ReachU h x b → b ∈ collect h l vis := by
+            intro x hx b hxb
+            rcases (mem1 x).1 hx with hx | hx
+            · exact (mem1 b).2 (.inl (hcl x hx b hxb))
+            · exact (mem1 b).2 (.inr (hx.trans hxb))
+          obtain ⟨nd2, mem2⟩ := ih r hr _ nd1 cl1
+          rw [collect_pair hm hc hl hr]
+          refine ⟨List.nodup_cons.2 ⟨?_, nd2⟩, fun b => ?_⟩
+          · intro ha
+            rcases (mem2 a).1 ha with ha | ha
+            · rcases (mem1 a).1 ha with ha | ha
+              · exact hm ha
+              · have := ha.le; omega
+            · have := ha.le; omega
+          · rw [List.mem_cons, mem2, mem1, reachU_iff hc hl hr]
+            constructor
+            · rintro (h1 | (h1 | h1) | h1)
+              · exact .inr (.inl h1)
+              · exact .inl h1
+              · exact .inr (.inr (.inl h1))
+              · exact .inr (.inr (.inr h1))
+            · rintro (h1 | h1 | h1 | h1)
+              · exact .inr (.inl (.inl h1))
+              · exact .inl h1
+              · exact .inr (.inl (.inr h1))
+              · exact .inr (.inr h1)
+        · refine stop (collect_bad hc hlt) (fun b hb => ?_)
+          obtain ⟨l', r', hc', hl', hr'⟩ := hb.source
+          rw [hc] at hc'; cases hc'; exact absurd ⟨hl', hr'⟩ hlt
+      · refine stop (collect_cached hc) (fun b hb => ?_)
+        obtain ⟨_, _, hc', _⟩ := hb.source; rw [hc] at hc'; cases hc'
+
+theorem uncachedList_nodup (h : Heap) (a : Nat) : (uncachedList h a).Nodup :=
+  (collect_spec h a [] List.nodup_nil (fun _ hx => by cases hx)).1
+
+theorem mem_uncachedList (h : Heap) (a b : Nat) : b ∈ uncachedList h a ↔ ReachU h a b := by
+  have := (collect_spec h a [] List.nodup_nil (fun _ hx => by cases hx)).2 b
+  simpa [uncachedList] using this
+
+/-! ### transfer of the pure laws; snapshots (C06) -/
+
+/-- example of a C07 law transferred through the refinement: reading back what was written -/
+theorem getPath_setPathH_same {H : Hash} {e : Bool} {h h' : Heap} {a a' v : Nat} {p : List Bool}
+    (hw : WF H h) (ha : a < h.cells.size) (hv : v < h.cells.size)
+    (hs : setPathH H e h a p v = some (h', a')) :
+    getPath (denote h' a') p = some (denote h v) :=
+  getPath_setPath_same H e _ p _ _ (denote_setPathH hw ha hv hs)
+
+/-- the root after a write is the recomputation along the path from the sibling roots -/
+theorem root_setPathH {H : Hash} {h h' : Heap} {a a' v : Nat} {p : List Bool}
+    (hw : WF H h) (ha : a < h.cells.size) (hv : v < h.cells.size)
+    (hs : setPathH H false h a p v = some (h', a')) :
+    (merkleRoot H h' a').2 = rootWith H (denote h a) p ((denote h v).root H) := by
+  rw [merkleRoot_value (setPathH_WF hw hv hs), setPath_root H _ p _ _ (denote_setPathH hw ha hv hs)]
+
+/-- one modelled heap operation -/
+inductive Step (H : Hash) : Heap → Heap → Prop
+  | alloc (h : Heap) (c : Cell) : OkAt h.cells.size c → Step H h (alloc h c).1
+  | root (h : Heap) (a : Nat) : Step H h (merkleRoot H h a).1
+  | set (e : Bool) (h : Heap) (a : Nat) (p : List Bool) (v : Nat) (h' : Heap) (a' : Nat) :
+      v < h.cells.size → setPathH H e h a p v = some (h', a') → Step H h h'
+  | ofNode (h : Heap) (n : Node) : Step H h (ofNode h n).1
+
+/-- any sequence of modelled operations -/
+inductive Steps (H : Hash) : Heap → Heap → Prop
+  | refl (h : Heap) : Steps H h h
+  | tail (h h1 h2 : Heap) : Steps H h h1 → Step H h1 h2 → Steps H h h2
+
+theorem Step.grow {H : Hash} {h h' : Heap} (s : Step H h h') : Grow h h' := by
+  cases s with
+  | alloc _ c _ => exact (alloc_prefix h c).grow
+  | root _ a => exact merkleRoot_grow H h a
+  | set e _ a p v _ a' _ hs => exact (setPathH_prefix hs).grow
+  | ofNode _ n => exact (ofNode_prefix h n).grow
+
+theorem Step.wf {H : Hash} {h h' : Heap} (s : Step H h h') (hw : WF H h) : WF H h' := by
+  cases s with
+  | alloc _ c ok => exact alloc_WF hw ok
+  | root _ a => exact merkleRoot_WF hw a
+  | set e _ a p v _ a' hv hs => exact setPathH_WF hw hv hs
+  | ofNode _ n => exact ofNode_WF hw n
+
+theorem Steps.grow {H : Hash} {h h' : Heap} (s : Steps H h h') : Grow h h' := by
+  induction s with
+  | refl => exact Grow.refl _
+  | tail _ _ _ st ih => exact ih.trans st.grow
+
+theorem Steps.wf {H : Hash} {h h' : Heap} (s : Steps H h h') (hw : WF H h) : WF H h' := by
+  induction s with
+  | refl => exact hw
+  | tail _ _ _ st ih => exact st.wf ih
+
+/-- 2. PERSISTENCE (C06): a snapshot (an address held by somebody) keeps denoting the same tree
+    whatever sequence of modelled operations happens later -/
+theorem snapshot_persistent {H : Hash} {h h' : Heap} (s : Steps H h h') (b : Nat)
+    (hb : b < h.cells.size) : denote h' b = denote h b := denote_grow s.grow b hb
+
+/-- ... and so its root, recomputed at any later time, is the old root -/
+theorem snapshot_root {H : Hash} {h h' : Heap} (hw : WF H h) (s : Steps H h h') (b : Nat)
+    (hb : b < h.cells.size) : (merkleRoot H h' b).2 = (denote h b).root H := by
+  rw [merkleRoot_value (s.wf hw), snapshot_persistent s b hb]
+
+/-! ### examples (toy hash: concatenation) -/
+
+section Examples
+
+private def toy : Hash := fun a b => a ++ b
+
+/-- `((1,2),(3,4))`: leaves at 0 1 3 4, pairs at 2 5 6 (root); then a spare leaf `9` at 7 -/
+private def hA : Heap :=
+  (alloc (ofNode Heap.empty
+    (.pair (.pair (.leaf [1]) (.leaf [2])) (.pair (.leaf [3]) (.leaf [4])))).1 (.leaf [9])).1
+
+example : hA.cells = #[.leaf [1], .leaf [2], .pair 0 1 none, .leaf [3], .leaf [4], .pair 3 4 none,
+    .pair 2 5 none, .leaf [9]] := by decide
+
+example : denote hA 6 = .pair (.pair (.leaf [1]) (.leaf [2])) (.pair (.leaf [3]) (.leaf [4])) := by
+  decide
+
+-- three uncached pairs: three hash calls; the caches are filled
+example : uncachedList hA 6 = [6, 5, 2] := by decide
+example : (merkleRoot toy hA 6).2 = [1, 2, 3, 4] := by decide
+example : (merkleRoot toy hA 6).1.hashCalls = 3 := by decide
+example : (merkleRoot toy hA 6).1.cells[6]? = some (.pair 2 5 (some [1, 2, 3, 4])) := by decide
+-- second call: no hashing
+example : (merkleRoot toy (merkleRoot toy hA 6).1 6).1.hashCalls = 3 := by decide
+
+private def hB : Heap := (merkleRoot toy hA 6).1
+
+-- write the leaf at address 7 at path right-left (gindex 6): two NEW cells 8, 9; nothing overwritten
+example : (setPathH toy false hB 6 [true, false] 7).map (·.2) = some 9 := by decide
+private def hC : Heap := ((setPathH toy false hB 6 [true, false] 7).map (·.1)).getD hB
+
+example : hC.cells.size = hB.cells.size + 2 := by decide
+-- sharing: the new root 9 re-uses address 2 (left subtree), the new cell 8 re-uses address 4
+example : hC.cells[9]? = some (.pair 2 8 none) := by decide
+example : hC.cells[8]? = some (.pair 7 4 none) := by decide
+example : hC.cells.extract 0 8 = hB.cells := by decide
+-- persistence: the old root still denotes the old tree, the new root the updated one
+example : denote hC 6 = denote hA 6 := by decide
+example : denote hC 9 = .pair (.pair (.leaf [1]) (.leaf [2])) (.pair (.leaf [9]) (.leaf [4])) := by
+  decide
+-- cost: only the two path cells are hashed (the cached subtree at 2 costs nothing)
+example : uncachedList hC 9 = [9, 8] := by decide
+example : (merkleRoot toy hC 9).1.hashCalls = 3 + 2 := by decide
+example : (merkleRoot toy hC 9).2 = [1, 2, 9, 4] := by decide
+
+-- shared subtrees are hashed once: `pair x x` over a pair `x` costs 2, not 3
+private def hD : Heap :=
+  (alloc (ofNode Heap.empty (.pair (.leaf [1]) (.leaf [2]))).1 (.pair 2 2 none)).1
+example : uncached hD 3 = 2 := by decide
+example : (merkleRoot toy hD 3).1.hashCalls = 2 := by decide
+
+-- expansion of a zero summary of height 2: per step one pair and one fresh zero leaf
+private def hE : Heap :=
+  (alloc (alloc Heap.empty (.leaf (zeroHash toy 2))).1 (.leaf [7])).1
+example : ((setPathH toy true hE 0 [false, true] 1).map fun x => (x.1.cells.size, x.2))
+    = some (6, 5) := by decide
+example : (setPathH toy true hE 0 [false, true] 1).map (fun x => denote x.1 x.2)
+    = some (.pair (.pair (zeroNode toy 0) (.leaf [7])) (zeroNode toy 1)) := by decide
+example : setPathH toy false hE 0 [false, true] 1 = none := by decide
+
+end Examples
 
 end Rmk.HeapLaws
